@@ -14,7 +14,7 @@ def diff_positions(a, b):
 def run(chk, replay=None):
     rng = random.Random(chk.seed)
     th = chk.tier == 'thorough'
-    cases = streams.fixture_lines() + streams.crossclass_lines()[::2] + streams.grammar_lines(rng, 1500 if th else 300, 0.1)
+    cases = streams.fixture_lines() + streams.crossclass_lines()[::2] + streams.long_value_lines() + streams.grammar_lines(rng, 1500 if th else 300, 0.1)
     # repeated and near-duplicate literals across lines
     lines = [l for l, _ in cases]
     lines += [l.replace(b'Zq1qZ', b'Zq2qZ') for l in lines[:40]] + lines[:20]
